@@ -1922,8 +1922,8 @@ int sm2_z256_point_from_octets(SM2_Z256_POINT *P, const uint8_t *in, size_t inle
 			error_print();
 			return -1;
 		}
-		sm2_z256_point_from_bytes(P, in + 1);
-		if (sm2_z256_point_is_on_curve(P) != 1) {
+		// returns 0 for (0, 0) and -1 for coordinates >= p or not on the curve
+		if (sm2_z256_point_from_bytes(P, in + 1) != 1) {
 			error_print();
 			return -1;
 		}
